@@ -342,6 +342,11 @@ class Application(ApplicationPartDelete, ApplicationPartHead,
         if self._internal_server:
             # Verify content length
             content_length = int(environ.get("CONTENT_LENGTH") or 0)
+            if content_length < 0:
+                # a negative length would make the handlers read until EOF
+                logger.info("Request body with negative length: %d",
+                            content_length)
+                return response(*httputils.BAD_REQUEST)
             if content_length:
                 if (self._max_content_length > 0 and
                         content_length > self._max_content_length):
